@@ -237,17 +237,22 @@ pub fn judge(case: &MatchCase, line: &str) -> Result<CaseInfo, String> {
     if o != exp {
         return Err(format!("matching!({}) in ordered evaluation (diagnostics on): {}", case.macro_args(), first_diff(o)));
     }
+    if !exp.contains('0') && std::env::var_os("VERIF_DEBUG_C06").is_some() {
+        eprintln!("ACCEPT-ALL {:?} :: {}", case.tys, case.macro_args());
+    }
     let cs = constructs(case);
     let mixed = exp.contains('1') && exp.contains('0');
     let mut info = CaseInfo::new(cs.len() >= 2 && mixed)
         .class_if(!n.is_empty(), "native-match-cross-check")
-        .class_if(!mixed, "accepts-all-or-nothing");
+        .class_if(!mixed && exp.contains('1'), "accepts-everything")
+        .class_if(!mixed && !exp.contains('1'), "accepts-nothing");
     info.classes.extend(cs);
     Ok(info)
 }
 
 pub fn case_strategy() -> impl Strategy<Value = MatchCase> {
-    let tys = proptest::collection::vec(0..ALL_TYS.len(), 0..=4).prop_map(|idx| {
+    let arity = prop_oneof![1 => Just(0usize), 8 => Just(1usize), 10 => Just(2usize), 8 => Just(3usize), 5 => Just(4usize)];
+    let tys = arity.prop_flat_map(|n| proptest::collection::vec(0..ALL_TYS.len(), n)).prop_map(|idx| {
         // keep the product domain small
         let mut tys: Vec<Ty> = vec![];
         let mut size = 1usize;
@@ -261,7 +266,8 @@ pub fn case_strategy() -> impl Strategy<Value = MatchCase> {
         }
         tys
     });
-    (tys, 1..=3usize, proptest::collection::vec(any::<bool>(), 4), any::<u8>(), any::<bool>()).prop_flat_map(
+    let n_alts = prop_oneof![6 => Just(1usize), 3 => Just(2usize), 2 => Just(3usize)];
+    (tys, n_alts, proptest::collection::vec(any::<bool>(), 4), any::<u8>(), any::<bool>()).prop_flat_map(
         |(tys, n_alts, structural, guard_sel, parenthesized)| {
             let n_alts = if tys.is_empty() { 1 } else { n_alts };
             let mut alts: Vec<BoxedStrategy<Vec<(P, Vec<(String, VarKind)>)>>> = vec![];
@@ -287,7 +293,48 @@ pub fn case_strategy() -> impl Strategy<Value = MatchCase> {
                 let want_guard = !tys2.is_empty() && (guard_sel % 3 == 0);
                 let tys3 = tys2.clone();
                 let g: BoxedStrategy<Option<G>> = if want_guard { guard(common).prop_map(Some).boxed() } else { Just(None).boxed() };
-                g.prop_map(move |guard| MatchCase { tys: tys3.clone(), alts: pats.clone(), guard, parenthesized })
+                g.prop_map(move |guard| {
+                    let mut case = MatchCase { tys: tys3.clone(), alts: pats.clone(), guard, parenthesized };
+                    // a pattern that rejects the whole domain exercises little: generalise the first
+                    // alternative just enough to accept one tuple (chosen by the guard selector byte)
+                    let dom = case.domain();
+                    if !dom.is_empty() && !case.tys.is_empty() && !dom.iter().any(|t| case.accepts(t)) {
+                        // the (alternative, tuple) pair with the fewest rejecting positions
+                        let mut best: Option<(usize, usize, usize)> = None;
+                        for (ai, alt) in case.alts.iter().enumerate() {
+                            for (ti, t) in dom.iter().enumerate() {
+                                let rejecting = alt.iter().zip(t.iter()).filter(|(p, v)| !matches(p, v, &mut Env::new())).count();
+                                let ti_rot = (ti + guard_sel as usize) % dom.len();
+                                if best.map(|(r, _, tr)| rejecting < r || (rejecting == r && ti_rot < tr)).unwrap_or(true) {
+                                    best = Some((rejecting, ai, ti_rot));
+                                    if rejecting == 0 {
+                                        break;
+                                    }
+                                }
+                            }
+                        }
+                        let (_, ai, ti_rot) = best.unwrap();
+                        let ti = (ti_rot + dom.len() - guard_sel as usize % dom.len()) % dom.len();
+                        let target = dom[ti].clone();
+                        let mut replaced = false;
+                        for (k, v) in target.iter().enumerate() {
+                            let mut env = Env::new();
+                            if !matches(&case.alts[ai][k], v, &mut env) {
+                                case.alts[ai][k] = P::Wild;
+                                replaced = true;
+                            }
+                        }
+                        if replaced {
+                            // the guard may refer to a binding that was just generalised away
+                            case.guard = None;
+                        }
+                        if !case.accepts(&target) {
+                            // the guard (or a binding it needs, now generalised away) is in the way
+                            case.guard = None;
+                        }
+                    }
+                    case
+                })
             })
         },
     )
